@@ -1596,3 +1596,20 @@ mutant("c16-consequent-or-update", ["C16", "C07"], (R, """                    pr
 
             if state & s_term:
                 terms = {t.name: t for t in proposition.variable.terms}  # type: ignore"""), "Consequent.load")
+
+# ------------------------------------------------------------------------------------------ G11 grid semantics (C18)
+mutant("c18-g11-first-input-fastest", "C18", [(O, "            position = len(x) - 1\n", "            position = 0\n"), (O, "if not x or position < 0:", "if not x or position >= len(x):"),
+                                               (O, "incremented = position != 0", "incremented = position != len(x) - 1"),
+                                               (O, "            position -= 1\n            if position >= 0:", "            position += 1\n            if position < len(x):")], "")
+mutant("c18-g11-offset-grid", "C18", (X, "value = variable.minimum + sample_values[index] * dx", "value = variable.minimum + (sample_values[index] + 1) * dx"), "G11/FldExporter.write_from_scope/grid-values")
+mutant("c18-g11-exclusive-end", "C18", (X, "dx = variable.drange / max(1.0, resolution)", "dx = variable.drange / max(1.0, resolution + 1)"), "G11/FldExporter.write_from_scope/grid-values")
+mutant("c18-g11-no-upward-correction", "C18", (X, """            while (k + 1) ** inputs <= values:
+                k += 1
+""", ""), "G11/FldExporter.write_from_scope/grid-size")
+mutant("c18-g11-each-variable-off-by-one", "C18", (X, """        else:
+            resolution = values - 1
+
+        sample_values""", """        else:
+            resolution = values
+
+        sample_values"""), "FldExporter.write_from_scope")
